@@ -152,7 +152,9 @@ def render(fns):
             w(f"fn ci_{i}(k: &String, v: &{rty}) -> bool {{ rt::log_pred({i}, k, format!(\"{{:?}}\", v)) }}")
         if f["inv_on"]:
             w(f"fn io_{i}(k: &String, v: &{rty}) -> bool {{ rt::log_check({i}, k, format!(\"{{:?}}\", v)) }}")
-        body = f"{{ rt::ran({i}); rt::{mk}() }}"
+        # async bodies suspend at 1-3 await points (a gate future that is ready unless the harness holds it shut)
+        gates = " ".join(["rt::gate().await;"] * (1 + (i // 3) % 3)) if f["is_async"] else ""
+        body = f"{{ rt::ran({i}); {gates} rt::{mk}() }}"
         if recv:
             w(f"#[derive(Debug, Clone)] pub struct R{i} {{ pub id: u32 }}")
             w(f"impl cachelito_core::DefaultCacheableKey for R{i} {{}}")
@@ -187,12 +189,22 @@ def render(fns):
         w(f"    let res = {call};")
         w("    (key, format!(\"{:?}\", res))")
         w("}")
+        if f["is_async"]:
+            # begin_i: the call as a boxed future the harness can poll step by step, resume later or drop
+            w(f"pub fn begin_{i}(j: usize) -> (String, std::pin::Pin<Box<dyn std::future::Future<Output = String>>>) {{")
+            prelude()
+            mv_call = (f"r.{ident}({callargs})" if recv else f"{ident}({callargs})")
+            w(f"    (key, Box::pin(async move {{ format!(\"{{:?}}\", {mv_call}.await) }}))")
+            w("}")
         w(f"pub fn would_{i}() -> (String, usize, bool) {{ let v: {rty} = rt::{mk}(); (format!(\"{{:?}}\", v), v.estimate_memory(), rt::next_ok()) }}")
         w("")
     w(f"pub const N: usize = {len(fns)};")
     w("pub static CALLS: [fn(usize) -> (String, String); N] = [" + ", ".join(f"call_{f['i']}" for f in fns) + "];")
     w("pub static WOULD: [fn() -> (String, usize, bool); N] = [" + ", ".join(f"would_{f['i']}" for f in fns) + "];")
     w("pub static KEYS: [fn(usize) -> String; N] = [" + ", ".join(f"key_{f['i']}" for f in fns) + "];")
+    w("pub type BeginFn = fn(usize) -> (String, std::pin::Pin<Box<dyn std::future::Future<Output = String>>>);")
+    w("pub static BEGINS: [Option<BeginFn>; N] = [" + ", ".join((f"Some(begin_{f['i']})" if f["is_async"] else "None") for f in fns) + "];")
+    w("pub static AWAITS: [usize; N] = [" + ", ".join(str(1 + (f["i"] // 3) % 3 if f["is_async"] else 0) for f in fns) + "];")
     w("pub static SPECS: [&str; N] = [")
     for f in fns:
         w("    " + repr(spec_line(f)).replace("'", '"') + ",") if '"' not in spec_line(f) else w("    r#\"" + spec_line(f) + "\"#,")
